@@ -214,6 +214,9 @@ def _optimise_operator(op):
         return key_list_leaf, same_leaf
 
     equal_nodes(op)
+    if len(nodes) == 0:
+        # no _OpSum/_OpProd node anywhere: nothing can be shared
+        return op
 
     key_temp = []
     key_list_op, same_op = equal_leaves(leaves)
